@@ -511,6 +511,63 @@ static void wide_case(uint64_t idx, void *vctx)
     if (vf_want_sample() && !vf_in_confirm && (idx0 % 197) == 13) vf_sample("wide pipeline, transform %s: 3 source sizes x 3 format pairs x 4 filters x 4 repeats, every destination pixel within one step of the real-valued reference", tdesc);
 }
 
+/* ---------- quarter turns, half turns and flips whose samples all lie inside the source ("cover") ----------
+ * These requests are served by dedicated blitters that compute the source origin once from the translation; the sampling rule
+ * floor(p - e) decides which row / column they start at, and translations whose fraction is exactly 1/2 sit on that rule's edge. */
+static const int32_t ROTM[7][4] = { { 0, FX1, -FX1, 0 }, { 0, -FX1, FX1, 0 }, { -FX1, 0, 0, -FX1 }, { -FX1, 0, 0, FX1 }, { FX1, 0, 0, -FX1 }, { 0, FX1, FX1, 0 }, { FX1, 0, 0, FX1 } };
+static const char *ROTN[7] = { "rot270", "rot90", "rot180", "flip-x", "flip-y", "transpose", "identity" };
+static const int32_t RFR[7] = { 0, EPS, FX1 / 2 - EPS, FX1 / 2, FX1 / 2 + EPS, FX1 - EPS, FX1 / 4 };
+#define RSW 11
+#define RSH 9
+static void rot_case(uint64_t idx, void *vctx)
+{
+    (void)vctx;
+    int dims[6] = { 7, 7, 7, 4, 2, 2 }, d[6];
+    vf_decode(idx, dims, 6, d);
+    int ri = d[0], fi = d[3], fl = d[4], big = d[5];
+    int dw = big ? 5 : 3, dh = big ? 4 : 2;
+    /* place the request so that all samples fall inside: choose the integer part of the translation from the matrix signs */
+    pixman_transform_t t; memset(&t, 0, sizeof t); t.matrix[2][2] = FX1;
+    t.matrix[0][0] = ROTM[ri][0]; t.matrix[0][1] = ROTM[ri][1]; t.matrix[1][0] = ROTM[ri][2]; t.matrix[1][1] = ROTM[ri][3];
+    int negx = (ROTM[ri][0] < 0 || ROTM[ri][1] < 0), negy = (ROTM[ri][2] < 0 || ROTM[ri][3] < 0);
+    t.matrix[0][2] = (negx ? 8 : 2) * FX1 + RFR[d[1]]; t.matrix[1][2] = (negy ? 7 : 1) * FX1 + RFR[d[2]];
+    char tdesc[160]; snprintf(tdesc, sizeof tdesc, "%s [%d %d %d; %d %d %d; 0 0 65536]", ROTN[ri], t.matrix[0][0], t.matrix[0][1], t.matrix[0][2], t.matrix[1][0], t.matrix[1][1], t.matrix[1][2]);
+    uint32_t raw[RSW * RSH]; for (int y = 0; y < RSH; y++) for (int x = 0; x < RSW; x++) raw[y * RSW + x] = src_raw(&FM[fi], RSW, x, y);
+    int stride = ph_stride_for(FM[fi].bpp, RSW) + 4;
+    uint8_t *sbuf = calloc((size_t)stride, RSH);
+    for (int y = 0; y < RSH; y++) for (int x = 0; x < RSW; x++) ph_put_pixel(sbuf + (size_t)y * stride, FM[fi].bpp, x, raw[y * RSW + x]);
+    pixman_image_t *src = pixman_image_create_bits(FM[fi].code, RSW, RSH, (uint32_t *)sbuf, stride);
+    pixman_image_set_transform(src, &t);
+    pixman_image_set_filter(src, fl ? PIXMAN_FILTER_BILINEAR : PIXMAN_FILTER_NEAREST, NULL, 0);
+    rsrc_t rs = { RSW, RSH, FM[fi], raw, PIXMAN_REPEAT_NONE };
+    uint64_t ev = 0, hh = 0; char cfgn[64];
+    for (int di = 0; di < 2; di++) for (int ci = 0; ci < 3; ci++) {
+        /* destination of the SAME format as the source (the dedicated blitters need that) or a8r8g8b8 */
+        const ph_fmt_t *DF = di ? &FM[fi] : &FM[0];
+        int dstride = ph_stride_for(DF->bpp, 8) + 4; uint8_t dbuf[8 * 40]; memset(dbuf, 0xa5, sizeof dbuf);
+        pixman_image_t *dst = pixman_image_create_bits(DF->code, 8, 6, (uint32_t *)dbuf, dstride);
+        ph_set_cfg(CF[ci]);
+        pixman_image_composite32(PIXMAN_OP_SRC, src, NULL, dst, 0, 0, 0, 0, 1, 1, dw, dh);
+        pixman_image_unref(dst); vf_count_libcalls(1); ev++;
+        for (int y = 0; y < dh; y++) for (int x = 0; x < dw; x++) {
+            int64_t cx = (int64_t)(2 * x + 1) * (FX1 / 2), cy = (int64_t)(2 * y + 1) * (FX1 / 2);
+            int64_t vx = ((int64_t)t.matrix[0][0] * cx + (int64_t)t.matrix[0][1] * cy + (int64_t)t.matrix[0][2] * FX1 + 0x8000) >> 16;
+            int64_t vy = ((int64_t)t.matrix[1][0] * cx + (int64_t)t.matrix[1][1] * cy + (int64_t)t.matrix[1][2] * FX1 + 0x8000) >> 16;
+            uint32_t e = fl ? ref_bilinear(&rs, vx, vy) : ref_nearest(&rs, vx, vy);
+            uint32_t want = ph_from_8888(DF, e) & ph_defined_mask(DF), got = ph_get_pixel(dbuf + (size_t)(y + 1) * dstride, DF->bpp, x + 1) & ph_defined_mask(DF);
+            if (want != got) {
+                vf_violation("c08-cover-rotation-sample-mismatch", "source %s %dx%d (all samples inside) filter=%s transform %s -> %s %dx%d request PIXMAN_DISABLE=[%s]: destination (%d,%d) = %x, reference %x (source position %.5f,%.5f)",
+                             FMN[fi], RSW, RSH, fl ? "bilinear" : "nearest", tdesc, di ? FMN[fi] : "a8r8g8b8", dw, dh, ph_cfg_name(CF[ci], cfgn, sizeof cfgn), x, y, got, want, vx / 65536.0, vy / 65536.0);
+                pixman_image_unref(src); free(sbuf); return;
+            }
+            if (ci == 0) hh = vf_mix(hh, got);
+        }
+    }
+    pixman_image_unref(src); free(sbuf);
+    vf_count_eval(ev); vf_count_nontrivial(ev);
+    if (!vf_in_confirm) vf_outcome(hh);
+}
+
 int main(int argc, char **argv)
 {
     vf_init(argc, argv, "C08", "exploration");
@@ -531,11 +588,12 @@ int main(int argc, char **argv)
     vf_space_run("projective-transforms", 8 * 4 * 8 * 3, c8_case, &cp);
     vf_space_run("wide-pipeline-affine", (uint64_t)7 * 3 * 3 * 3 * 8 * 3, wide_case, &ca);
     vf_space_run("wide-pipeline-projective", 8 * 4 * 8 * 3, wide_case, &cp);
+    vf_space_run("covering-rotations-and-flips", 7 * 7 * 7 * 4 * 2 * 2, rot_case, NULL);
     big_ctx cb = { th };
     vf_space_run("wide-and-tall-sources", 3 * 7 * 6 * 4 * 2, big_case, &cb);
-    static char b[1100];
+    static char b[1500];
     snprintf(b, sizeof b, "%llu affine transforms (m00 x m11 x m01 x m10 x tx x ty alphabets incl. +-1/2, +-1, 1+e, 2, 1/3 and translations 0, +-e, 1/2-e, 1/2, -1/2, 1, 3-e) + 768 projective; "
-             "%d filters (nearest, bilinear, 7 convolution kernels incl. negative lobes, %d separable tables); 4 repeats; sources 1x1 2x2 3x2 4x4 x 4 formats; 3 configurations; wide pipeline: 4536 affine + 768 projective transforms x 3 sizes x 3 format pairs (a8r8g8b8->rgba_float, a2r10g10b10->a8r8g8b8, rgba_float->a8r8g8b8) x {nearest, bilinear, conv2x2, conv3x1} x 4 repeats; wide/tall sources: sizes 32766, 32765, 32700, 20000 (x2 and 2x; the library drops transformed requests on sources of 32767 or more) x 6 scales x 7 first-sample positions "
+             "%d filters (nearest, bilinear, 7 convolution kernels incl. negative lobes, %d separable tables); 4 repeats; sources 1x1 2x2 3x2 4x4 x 4 formats; 3 configurations; covering quarter/half turns and flips: 7 matrices x 7x7 translation fractions (0, e, 1/2-e, 1/2, 1/2+e, 1-e, 1/4) x 4 formats x nearest/bilinear x 2 request sizes x same-format and a8r8g8b8 destinations x 3 configurations; wide pipeline: 4536 affine + 768 projective transforms x 3 sizes x 3 format pairs (a8r8g8b8->rgba_float, a2r10g10b10->a8r8g8b8, rgba_float->a8r8g8b8) x {nearest, bilinear, conv2x2, conv3x1} x 4 repeats; wide/tall sources: sizes 32766, 32765, 32700, 20000 (x2 and 2x; the library drops transformed requests on sources of 32767 or more) x 6 scales x 7 first-sample positions "
              "(left of the image, at its start, middle, end, end of the coordinate range) x 3 sub-pixel offsets x nearest/bilinear x 4 repeats x 4 formats x {SRC, OVER} x {a8r8g8b8, r5g6b5} destinations x 3 configurations",
              (unsigned long long)naff, NFIL, NFIL - 9);
     vf_bounds = b;
